@@ -810,15 +810,39 @@ func (r *resolver) findGrouping(y *Uses) (*Grouping, error) {
 
 func (r *resolver) applyRefinements(u *Uses, parent Definition) error {
 	for _, refine := range u.refines {
-		if on, err := checkFeature(refine); !on || err != nil {
+		on, err := checkFeature(refine)
+		if err != nil {
 			return err
 		}
 		target := Find(parent.(HasDataDefinitions), refine.Ident())
 		if target == nil {
 			return fmt.Errorf("%s:could not find target for refine %s", SchemaPath(u), refine.Ident())
 		}
+		if !on {
+			// RFC7950 Sec 7.13.2 the if-feature of a refine is added to the target node,
+			// the node is not there when the expression does not hold
+			if err := removeDataDefinition(target); err != nil {
+				return err
+			}
+			continue
+		}
 		if err := r.refine(target, refine); err != nil {
 			return err
+		}
+	}
+	return nil
+}
+
+func removeDataDefinition(target Definition) error {
+	hasDDefs, valid := target.Parent().(HasDataDefinitions)
+	if !valid {
+		return fmt.Errorf("%s cannot be removed from %T", SchemaPath(target), target.Parent())
+	}
+	for _, candidate := range hasDDefs.popDataDefinitions() {
+		if candidate != target {
+			if err := hasDDefs.addDataDefinition(candidate); err != nil {
+				return err
+			}
 		}
 	}
 	return nil
